@@ -9,7 +9,7 @@ from .runner import hyp_run
 PROP = "C10"
 LEVEL = "exploration"
 RULE = (
-    "strings: grammar derivations, rule templates, their 1-3 character mutations and truncations, token soups over the "
+    "strings: every token sequence of <= 4/5 tokens over a 16-token vocabulary (exhaustive); grammar derivations, rule templates, their 1-3 character mutations and truncations, token soups over the "
     "tokenizer alphabet, arbitrary unicode insertions, bracket nesting up to depth 40 (100 thorough), flat operator "
     "chains of 500/1500/3000 operators for + - * / = and juxtaposition; histories: 2-8 parse calls on ONE parser mixing "
     "valid, invalid and repeated strings; oracle: each call returns a tree with a clean link/arity audit or raises "
@@ -183,6 +183,21 @@ def run(ctx):
             ctx.count("evaluations")
             ctx.count("flat_chains")
             check_string(ctx, {"s": s, "chain_op": op, "chain_n": n})
+    # bounded-exhaustive: every sequence of <= 4 (quick) / 5 (thorough) tokens over a 16-token vocabulary
+    import itertools
+
+    vocab = ["x", "y", "2", "0.5", "+", "-", "*", "/", "^", "!", "=", "(", ")", "sgn", "?", " "]
+    bound = 4 if ctx.tier == "quick" else 5
+    k = 0
+    for length in range(0, bound + 1):
+        for seq in itertools.product(vocab, repeat=length):
+            k += 1
+            if k % ctx.nshards != ctx.shard:
+                continue
+            ctx.count("evaluations")
+            ctx.count("exhaustive_strings")
+            check_string(ctx, {"s": "".join(seq)})
+    ctx.info["exhaustive_token_sequences"] = f"all {k} sequences of <= {bound} tokens over {vocab}"
     hyp_run(ctx, "strings", string_strategy(ctx), check_string, ctx.n(8000, 80000))
     pool = st.one_of(G.grammar_strings(8), st.sampled_from(["x + 1", "2x", "(", "x +", "4 / 2", "1.2.3", "x ? y", "", " ", "sgn(x)", "x = 2", "x y z", ")x("]))
     hist = st.lists(pool, min_size=2, max_size=8).flatmap(
